@@ -13,17 +13,20 @@ from .model import Model
 class Cfg(object):
     """Index configuration: default rule kind, constructor rules {anchor: kind}, back-end."""
 
-    def __init__(self, default="never", rules=None, backend="file", overwrite=False, name=None):
+    def __init__(self, default="never", rules=None, backend="file", overwrite=False, name=None, encoding="utf-8", str_rules=False, query_str=False):
         self.default = default
         self.rules = dict(rules or {})
         self.backend = backend
         self.overwrite = overwrite
+        self.encoding = encoding  # constructor argument `encoding`
+        self.str_rules = str_rules  # rule anchors handed to the constructor as str
+        self.query_str = query_str  # oracles hand LRUs / prefixes to queries as str
         self.name = name or "%s/%s/%s%s" % (
             default,
             ",".join("%s:%s" % (L.show(a), k) for a, k in sorted(self.rules.items())) or "-",
             backend,
             "+ow" if overwrite else "",
-        )
+        ) + ("" if encoding == "utf-8" else "/" + encoding) + ("/str-rules" if str_rules else "") + ("/str-queries" if query_str else "")
 
     def to_json(self):
         return {
@@ -31,6 +34,9 @@ class Cfg(object):
             "rules": [[a.decode("latin-1"), k] for a, k in sorted(self.rules.items())],
             "backend": self.backend,
             "overwrite": self.overwrite,
+            "encoding": self.encoding,
+            "str_rules": self.str_rules,
+            "query_str": self.query_str,
         }
 
     @staticmethod
@@ -40,6 +46,9 @@ class Cfg(object):
             {a.encode("latin-1"): k for a, k in d["rules"]},
             d.get("backend", "file"),
             d.get("overwrite", False),
+            encoding=d.get("encoding", "utf-8"),
+            str_rules=d.get("str_rules", False),
+            query_str=d.get("query_str", False),
         )
 
 
@@ -120,11 +129,13 @@ class World(object):
 
     # ------------------------------------------------------------------ plumbing
     def _open(self, default, rules, overwrite=False):
+        enc = self.cfg.encoding
         return self.ns["Traph"](
             folder=self.folder,
             overwrite=overwrite,
+            encoding=enc,
             default_webentity_creation_rule=L.RULES[default],
-            webentity_creation_rules={a: L.RULES[k] for a, k in rules.items()},
+            webentity_creation_rules={(a.decode(enc) if self.cfg.str_rules else a): L.RULES[k] for a, k in rules.items()},
         )
 
     def close(self):
@@ -206,7 +217,30 @@ class World(object):
             self._str = False
 
     def _x(self, lru):
-        return lru.decode("utf-8") if getattr(self, "_str", False) else lru
+        return lru.decode(self.cfg.encoding) if getattr(self, "_str", False) else lru
+
+    def q(self, lru):
+        """An LRU as the oracles hand it to a query: bytes, or str when the configuration says so."""
+        return lru.decode(self.cfg.encoding) if self.cfg.query_str else lru
+
+    def _op_as_iter(self, op, tr):
+        """add_links handed a one-shot iterator instead of a list."""
+        _, inner = op
+        assert inner[0] == "links"
+        thunk = self._op_links(inner, tr)
+        pairs = [(self._x(a), self._x(b)) for a, b in inner[1]]
+        return lambda: self.t.add_links(iter(pairs))
+
+    def _op_crawl_alias(self, op, tr):
+        """A crawl batch naming the same source page twice in one mapping, once as bytes and
+        once as str (two dictionary keys, one page)."""
+        _, src, tg1, tg2 = op
+        seq = [(src, True)] + [(t, False) for t in tg1] + [(t, False) for t in tg2]
+        tr.pred_new_pages, tr.pred_created = self.m.insert_pages(seq)
+        for t in tuple(tg1) + tuple(tg2):
+            self.m.links[(src, t)] += 1
+        data = {src: list(tg1), src.decode(self.cfg.encoding): list(tg2)}
+        return lambda: self.t.index_batch_crawl(data, 1)
 
     # page-like ------------------------------------------------------------
     def _op_page(self, op, tr):
